@@ -66,3 +66,10 @@ def inst(n, np_, count, tiers, st=0, site=0, pre=0, wsteps=2, early=0, timeout=1
 INSTANCES = [
     inst(2, 1, 2, ['quick', 'thorough'], site=2),
 ]
+
+import copy as _copy
+for _p in (1, 2, 3, 4):
+    _i = _copy.deepcopy(INSTANCES[0])
+    _i.update({'name': 'probe%d' % _p, 'src': 'probe.cpp', 'tiers': ['probe'], 'timeout': 600})
+    _i['defs'] = dict(_i['defs'], VF_PROBE=_p)
+    INSTANCES.append(_i)
